@@ -61,6 +61,8 @@ func TestC06(t *testing.T) {
 			// twin subtrees, one of them replaced by a symlink to the other (or to the parent): its
 			// entries seem to be there when looked up through the link
 			twin := func(root string, seed uint64) {
+				signed[root+"/lib.so"] = &Entry{Kind: KFile, Data: Bytes(seed+2, 70001)}
+				signed[root+"/lib.so.1"] = &Entry{Kind: KFile, Data: Bytes(seed+2, 70001)}
 				signed[root+"/x"] = &Entry{Kind: KFile, Data: Bytes(seed, 1000)}
 				signed[root+"/sub/y"] = &Entry{Kind: KFile, Data: Bytes(seed+1, 70000)}
 				signed[root+"/sub/emptydir"] = &Entry{Kind: KDir}
@@ -74,8 +76,9 @@ func TestC06(t *testing.T) {
 				twin("t2", 9)
 			}
 			signed.Normalize()
-			which := rapid.SampledFrom([]string{"t1", "t2", "t1/sub"}).Draw(rt, "twinwhich")
-			dest := map[string]string{"t1": "t2", "t2": "t1", "t1/sub": "../t2/sub"}[which]
+			which := rapid.SampledFrom([]string{"t1", "t2", "t1/sub", "t1/lib.so", "t2/lib.so.1"}).Draw(rt, "twinwhich")
+			// (the last two: a file replaced by a symlink to a file with the very same content)
+			dest := map[string]string{"t1": "t2", "t2": "t1", "t1/sub": "../t2/sub", "t1/lib.so": "lib.so.1", "t2/lib.so.1": "../t1/lib.so"}[which]
 			faults = append([]Fault{{Kind: "tolink", Path: which, Dest: dest}}, faults...)
 			Ev.Probe("directory_replaced_by_symlink_to_twin_directory")
 		}
